@@ -94,7 +94,7 @@ func checkLegal(cfg capCfg, c *peerCmd) []string {
 func runC18(h *H) {
 	imports := []string{"From GoImap.Base Require Import Bytes.", "From GoImap.Model Require Import Wire ClientWrite."}
 	corr := h.NewCorr("cmdbytes", imports, "cw_mismatches", 600).Type("cw_case")
-	h.Rule("real imapclient.Client against a scripted server, for capability sets {IMAP4rev1, +LITERAL-, +LITERAL+, IMAP4rev2, rev1+rev2, +ENABLE UTF8=ACCEPT (enabled or not)}: LOGIN, SELECT, EXAMINE, CREATE, DELETE, RENAME, SUBSCRIBE, UNSUBSCRIBE, STATUS, COPY, MOVE, LIST, SEARCH (string keys) and APPEND (sizes 0, 1, 4095..4097, 5000) with string arguments from the classes {plain, space, quote, backslash, CR, LF, NUL, 8-bit UTF-8, invalid UTF-8, 4096 and 4097 bytes, empty}; the server delays every continuation request (payload before '+' is a violation) and in a second pass refuses every synchronising literal with a tagged NO (any payload byte afterwards is a violation; other commands and the connection must stay usable). Every received command is scanned by an independent tokenizer against the advertised capabilities; the exact bytes of string-only commands are re-derived by the model inside Coq. Non-trivial = the argument needed a literal or 8-bit quoting; distinct by (caps, command, argument).")
+	h.Rule("real imapclient.Client against a scripted server, for capability sets {IMAP4rev1, +LITERAL-, +LITERAL+, IMAP4rev2, rev1+rev2, +ENABLE UTF8=ACCEPT (enabled or not)}: LOGIN, SELECT, EXAMINE, CREATE, DELETE, RENAME, SUBSCRIBE, UNSUBSCRIBE, STATUS, COPY, MOVE, LIST, SEARCH (string keys) and APPEND (sizes 0, 1, 4095..4097, 5000) with string arguments from the classes {plain, space, quote, backslash, CR, LF, NUL, 8-bit UTF-8, invalid UTF-8, 4096 and 4097 bytes, empty}; the server delays every continuation request (payload before '+' is a violation) and in a second pass refuses every synchronising literal with a tagged NO or BAD [TOOBIG], alternating (any payload byte afterwards is a violation; other commands and the connection must stay usable). Every received command is scanned by an independent tokenizer against the advertised capabilities; the exact bytes of string-only commands are re-derived by the model inside Coq. Non-trivial = the argument needed a literal or 8-bit quoting; distinct by (caps, command, argument).")
 
 	cfgs := []capCfg{{"IMAP4rev1", false}, {"IMAP4rev1 LITERAL-", false}, {"IMAP4rev1 LITERAL+", false}, {"IMAP4rev2", false},
 		{"IMAP4rev1 IMAP4rev2", false}, {"IMAP4rev1 ENABLE UTF8=ACCEPT", false}, {"IMAP4rev1 ENABLE UTF8=ACCEPT", true}, {"IMAP4rev1 ENABLE UTF8=ACCEPT LITERAL+", true}}
@@ -140,9 +140,14 @@ func runC18(h *H) {
 		for _, cfg := range cfgs {
 			peer := newPeer("* OK [CAPABILITY " + cfg.Caps + "] ready\r\n")
 			idleTag := ""
+			refusals := 0
 			peer.ContDelay = 15 * time.Millisecond
 			peer.OnLiteral = func(p *scriptedPeer, c *peerCmd, size int) string {
 				if refuse {
+					refusals++
+					if refusals%2 == 0 {
+						return "BAD [TOOBIG] literal refused"
+					}
 					return "NO literal refused"
 				}
 				return ""
